@@ -29,21 +29,24 @@ var witnesses = []witness{
 		"CREATE TABLE t (a INT PRIMARY KEY, b INT, KEY k (b) COMMENT 'it''s')", nil},
 	{kfCheckTickIdent, "TABLE", "t", nil,
 		"CREATE TABLE t (`x``y` INT, CONSTRAINT c1 CHECK (`x``y` > 0))", nil},
-	{kfVirtualChecks, "TABLE", "t", nil,
+	{kfVirtual, "TABLE", "t", nil,
 		"CREATE TABLE t (a INT, b INT GENERATED ALWAYS AS (a + 1) VIRTUAL, CONSTRAINT c1 CHECK (a <> 3))",
 		[]string{"SELECT CONSTRAINT_NAME, CONSTRAINT_TYPE FROM information_schema.TABLE_CONSTRAINTS WHERE TABLE_SCHEMA = 'd' AND TABLE_NAME = 't'"}},
-	{kfVirtualComment, "TABLE", "t", nil,
+	{kfVirtual, "TABLE", "t", nil,
 		"CREATE TABLE t (a INT, b INT GENERATED ALWAYS AS (a + 1) VIRTUAL) COMMENT='hello'",
 		[]string{"SELECT TABLE_COMMENT FROM information_schema.TABLES WHERE TABLE_SCHEMA = 'd' AND TABLE_NAME = 't'"}},
-	{kfVirtualPKOrder, "TABLE", "t", nil,
+	{kfVirtual, "TABLE", "t", nil,
 		"CREATE TABLE t (a INT NOT NULL, b INT NOT NULL, c INT GENERATED ALWAYS AS (a + 1) VIRTUAL, PRIMARY KEY (b, a))",
 		[]string{"SHOW INDEX FROM t"}},
 	{kfMemberBackslash, "TABLE", "t", nil,
 		`CREATE TABLE t (a INT PRIMARY KEY, e ENUM('a','b\\s'))`,
 		[]string{`INSERT INTO t VALUES (1, 'b\\s')`, "SELECT * FROM t"}},
-	{kfViewColumnList, "VIEW", "v", []string{"CREATE TABLE b1 (a INT PRIMARY KEY, c INT)"},
+	{kfViewHeader, "VIEW", "v", []string{"CREATE TABLE b1 (a INT PRIMARY KEY, c INT)"},
 		"CREATE VIEW v (x, y) AS SELECT a, c FROM b1",
 		[]string{"DESCRIBE v"}},
+	{kfViewHeader, "VIEW", "v", []string{"CREATE TABLE b1 (a INT PRIMARY KEY, c INT)"},
+		"CREATE ALGORITHM = TEMPTABLE SQL SECURITY INVOKER VIEW v AS SELECT a, c FROM b1",
+		[]string{"SELECT IS_UPDATABLE, SECURITY_TYPE FROM information_schema.VIEWS WHERE TABLE_SCHEMA = 'd' AND TABLE_NAME = 'v'"}},
 	{kfViewCheckOption, "VIEW", "v", []string{"CREATE TABLE b1 (a INT PRIMARY KEY, c INT)"},
 		"CREATE VIEW v AS SELECT a FROM b1 WHERE a > 1 WITH CHECK OPTION", nil},
 	{kfViewNameTick, "VIEW", "v`w", []string{"CREATE TABLE b1 (a INT PRIMARY KEY, c INT)"},
